@@ -174,6 +174,13 @@ func (m *DisputeMonitor) observe(c *Chain, ctx sdk.Context, where string) (creat
 			if !allowedTransitions[[2]disputetypes.DisputeStatus{old, d.DisputeStatus}] {
 				c.Violate("C12", "dispute", fmt.Sprintf("illegal-transition:%s->%s", old, d.DisputeStatus), map[string]interface{}{"id": id, "where": where})
 			}
+			// a round that was superseded by a new round has made its transition (unresolved -> new round): it moves no further
+			for _, later := range ds {
+				if later.DisputeId > id && string(later.HashId) == string(d.HashId) {
+					c.Violate("C12", "dispute", fmt.Sprintf("superseded-round-changed-status:%s->%s", old, d.DisputeStatus), map[string]interface{}{"id": id, "later_round": later.DisputeId, "where": where})
+					break
+				}
+			}
 			if old == disputetypes.Prevote && d.DisputeStatus == disputetypes.Voting {
 				fundedNow = append(fundedNow, id)
 			}
@@ -645,6 +652,13 @@ func (m *DisputeMonitor) reporterStakeOnce(c *Chain, ctx sdk.Context, id, block 
 func (m *DisputeMonitor) onFunded(c *Chain, ctx sdk.Context, id uint64, tx sdk.Tx, stakeAfter map[string]math.Int) {
 	d := m.disputes[id]
 	h := string(d.HashId)
+	// "when a dispute becomes fully funded": the first round's fee is the category's share of the disputed stake
+	if d.DisputeRound == 1 {
+		m.st.Bucket("c11|funding-complete|paid-vs-fee=%d", d.FeeTotal.BigInt().Cmp(d.SlashAmount.BigInt()))
+		if d.FeeTotal.LT(d.SlashAmount) {
+			c.Violate("C11", "dispute", "dispute-treated-as-funded-before-its-fee-was-complete", map[string]interface{}{"id": id, "paid": d.FeeTotal.String(), "fee": d.SlashAmount.String(), "category": d.DisputeCategory.String()})
+		}
+	}
 	m.funded[h]++
 	m.st.Count("c11.funding.evals")
 	if m.funded[h] > 1 {
@@ -808,6 +822,13 @@ func (m *DisputeMonitor) BeginBlockExit(c *Chain, ctx sdk.Context, err error) {
 		for _, id := range execNow {
 			if m.executed[id] > 1 {
 				c.Violate("C13", "dispute", "dispute-executed-twice", map[string]interface{}{"id": id})
+			}
+			for _, later := range m.disputes {
+				if later.DisputeId > id && string(later.HashId) == string(m.disputes[id].HashId) {
+					c.Violate("C12", "dispute", "superseded-round-executed", map[string]interface{}{"id": id, "later_round": later.DisputeId})
+					c.Violate("C13", "dispute", "superseded-round-executed", map[string]interface{}{"id": id, "later_round": later.DisputeId})
+					break
+				}
 			}
 		}
 	}
